@@ -213,18 +213,24 @@ Theorem C12_sampler_params_laplace : forall sq env,
 Proof. exact laplace_sampler_params. Qed.
 Print Assumptions C12_sampler_params_laplace.
 
-(* KNOWN DEFECT: TruncNormal.sample passes a, b to scipy's truncnorm, which expects the
-   standardised bounds (a-mu)/sigma, (b-mu)/sigma: samples leave get_support() = [a, b] *)
-Theorem C12_truncnormal_sampler_refuted :
+(* TruncNormal.sample (repaired in /repo 5c6c4c3: standardised bounds): samples lie in get_support() = [a, b] *)
+Theorem C12_sampler_support_truncnormal : forall sq env envl z, 0 < sq (env "sigma2"%string) ->
+  desc_std_supp sq env truncnormal_sample z -> in_supp sq env envl truncnormal_support (realise sq env truncnormal_sample z).
+Proof. exact truncnormal_sampler_support. Qed.
+Print Assumptions C12_sampler_support_truncnormal.
+
+(* the rule before the repair (hand-written descriptor truncnorm.rvs(a, b, loc=mu, scale=sigma), scipy expects the
+   standardised bounds): samples leave [a, b] — kept so that a return of the defect has a named theorem *)
+Theorem C12_truncnormal_sampler_old_rule_refuted :
   exists (sq : Qc -> Qc) (env : string -> Qc) (envl : string -> list Qc) (z : Qc),
     sq (env "sigma2"%string) * sq (env "sigma2"%string) = env "sigma2"%string /\
     env "a"%string < env "b"%string /\
-    desc_std_supp sq env truncnormal_sample z /\
-    ~ in_supp sq env envl truncnormal_support (realise sq env truncnormal_sample z).
-Proof. exact truncnormal_sampler_refuted. Qed.
-Print Assumptions C12_truncnormal_sampler_refuted.
+    desc_std_supp sq env truncnormal_sample_old z /\
+    ~ in_supp sq env envl truncnormal_support (realise sq env truncnormal_sample_old z).
+Proof. exact truncnormal_sampler_old_rule_refuted. Qed.
+Print Assumptions C12_truncnormal_sampler_old_rule_refuted.
 
-(* the proposed repair: standardised bounds keep the sample in [a, b] *)
+(* the arithmetic behind the repair: standardised bounds keep the sample in [a, b] *)
 Theorem C12_truncnormal_standardised_ok :
   forall mu sigma a b z : Qc, 0 < sigma ->
     (a - mu) / sigma <= z -> z <= (b - mu) / sigma -> a <= mu + sigma * z /\ mu + sigma * z <= b.
@@ -265,7 +271,7 @@ Example C12_nonvacuous_script :
 Proof. vm_compute. reflexivity. Qed.
 
 (* the reading of ">=" shared by conditions (evaluate_cop) and the analysis: equality included.
-   (`--simulate` evaluates tail-bound goals P(X >= c) differently: known finding, see c12.py) *)
+   (`--simulate` decided tail-bound goals P(X >= c) as False at X = c before /repo f308946; c12.py re-checks it) *)
 Theorem C12_ge_includes_equality : forall x : Qc, cop_holds Cge x x = true /\ cop_holds Cle x x = true.
 Proof. exact cop_refl. Qed.
 Print Assumptions C12_ge_includes_equality.
